@@ -93,11 +93,11 @@ def oracle(case, rec):
     if not close(one, S):
         raise Violation('C10/hilberthuang_1d/vs-bruteforce/' + tag,
                         'f=%r edges=%r got %r expected %r' % (f.tolist()[:6], edges.tolist()[:6], one.tolist()[:4], S.tolist()[:4]))
-    if not np.allclose(dense.sum(axis=1), one.sum(axis=1), rtol=1e-12, atol=1e-12 * (1 + S.sum())):
+    if not np.allclose(dense.sum(axis=1), one.sum(axis=1), rtol=1e-12, atol=1e-12 * (1 + np.abs(a).sum() + (a ** 2).sum())):
         raise Violation('C10/marginals-disagree/' + tag, '')
     w = a ** 2 if mode == 'energy' else a
     tot = w[(f >= edges[0]) & (f < edges[-1])].sum()
-    if not np.isclose(dense.sum(), tot, rtol=1e-12, atol=1e-12 * (1 + tot)):
+    if not np.isclose(dense.sum(), tot, rtol=1e-12, atol=1e-12 * (1 + np.abs(a).sum() + (a ** 2).sum())):
         raise Violation('C10/total-energy/' + tag, '%r vs %r' % (dense.sum(), tot))
     rec.cls(tag)
     rec.cls('mode=' + mode)
@@ -129,8 +129,12 @@ def random_case(draw):
     M = draw(st.integers(1, 6))
     nb = draw(st.one_of(st.integers(1, 4), st.integers(1, 40)))
     scale = draw(st.sampled_from(['linear', 'log']))
-    lo = draw(st.sampled_from([0.5, 1.0, 2.0, 0.1]))
+    # first edge at exactly zero and bins reaching into negative frequencies are valid bin sets (instantaneous frequencies
+    # of noisy IMFs are negative now and then); log spacing needs a positive start
+    lo = draw(st.sampled_from([0.5, 1.0, 2.0, 0.1, 0.0, 0, -2.0]))
     hi = lo + draw(st.sampled_from([0.5, 9.0, 49.0]))
+    if lo <= 0:
+        scale = 'linear'
     import emd
     edges, _ = emd.spectra.define_hist_bins(lo, hi, nb, scale=scale)
     edges = np.asarray(edges, dtype=float)
@@ -141,7 +145,7 @@ def random_case(draw):
     f[snap] = edges[rng.integers(0, len(edges), int(snap.sum()))]
     if draw(st.booleans()):
         f[rng.random((T, M)) < 0.1] *= -1
-    a = np.round(rng.random((T, M)) * 3, 4)
+    a = np.round((rng.random((T, M)) - draw(st.sampled_from([0.0, 0.0, 0.0, 0.3, 1.0]))) * 3, 4)     # also signed / negative
     return {'f': f, 'a': a, 'edges': edges, 'mode': draw(st.sampled_from(['energy', 'amplitude'])),
             'layout': draw(st.sampled_from(gens.LAYOUTS)), 'dtype': draw(st.sampled_from(['f8', 'f8', 'f4']))}
 
